@@ -127,7 +127,7 @@ def tlc_check(scratch, spec, cfg, timeout_s, workers=None, extra=()):
     return info
 
 
-def tlc_gen_replay(scratch, harness, family, spec, cfg, timeout_s, workers=None, jobs=None, extra=()):
+def tlc_gen_replay(scratch, harness, family, spec, cfg, timeout_s, workers=None, jobs=None, extra=(), procs=None):
     """spec -> code: TLC prints behaviours, the harness replays them. Returns (tlcinfo, summary)."""
     sd = prepare_spec_dir(scratch)
     meta = tempfile.mkdtemp(prefix="meta_", dir=scratch)
@@ -135,7 +135,7 @@ def tlc_gen_replay(scratch, harness, family, spec, cfg, timeout_s, workers=None,
     tlclog = os.path.join(scratch, tag + ".tlc.log")
     summ = os.path.join(scratch, tag + ".summary.json")
     tcmd = ["timeout", str(timeout_s)] + tlc_cmd(spec, cfg, meta, workers or NCPU, extra)
-    hcmd = [harness, "replay", family, "-j", str(jobs or NCPU), "-out", summ, "-tlclog", tlclog]
+    hcmd = [harness, "replay", family, "-j", str(jobs or NCPU), "-procs", str(procs or 1), "-out", summ, "-tlclog", tlclog]
     t0 = time.time()
     p1 = subprocess.Popen(tcmd, cwd=sd, stdout=subprocess.PIPE, stderr=subprocess.STDOUT)
     p2 = subprocess.Popen(hcmd, cwd=scratch, stdin=p1.stdout, stdout=subprocess.PIPE, stderr=subprocess.STDOUT, text=True)
